@@ -221,6 +221,16 @@ InDomain == /\ \A i \in 1..Len(cfg.paths) :
                  /\ ~GitIgnored(s, IsDir(s))                          \* a requested path a parent .gitignore matches
                  /\ \A d \in Anc(s) : ~GitIgnored(d, TRUE)
 
+\* the swap family (cfg: InDomain <- InDomainSwap) admits an explicitly requested FILE that a parent .gitignore matches.
+\* Whether such a file is to be extracted is left open (DESIGN, C01 Domain); what is required is that the answer does not
+\* depend on the position of the request: the harness replays <<s, t>> and <<t, s>> and compares the calls on FreeFiles.
+InDomainSwap == \A i \in 1..Len(cfg.paths) :
+                  LET s == cfg.paths[i] IN
+                  /\ IsDir(s) => ~GitIgnored(s, TRUE)
+                  /\ \A d \in Anc(s) : ~GitIgnored(d, TRUE)
+FreeFiles == {s \in Slot : /\ \E i \in 1..Len(cfg.paths) : cfg.paths[i] = s
+                           /\ Present(s) /\ ~IsDir(s) /\ GitIgnored(s, FALSE)}
+
 -----------------------------------------------------------------------------
 (* ------------------------------- the walk -------------------------------- *)
 Top == stack[Len(stack)]
@@ -431,6 +441,7 @@ Case == [nodes |-> NodesJson, cfg |-> CfgJson, ex |-> ExSeq,
                      plugins |-> [e \in Ex |-> StatusOf(e)], cancelled |-> cancelled,
                      work_remained |-> \E r \in 1..cfg.roots, e \in Ex, sl \in Slot : calls[<<r, e, sl>>] < ExpectedCount(r, e, sl)]]
 Emit == Done => PrintT(ToJson(Case))
+EmitSwap == (Done /\ Len(cfg.paths) = 2 /\ FreeFiles # {}) => PrintT(ToJson([c |-> Case, free |-> P(FreeFiles)]))
 \* the deep family replays only the trees that reach depth 4 (a/b/c/f)
 EmitDeep == (Done /\ NSlots >= 12 /\ tree[12] # "none") => PrintT(ToJson(Case))
 \* sanity (TLC must violate these): the interesting cases are reachable
